@@ -46,6 +46,9 @@ CLAIMED = {
  "C06": ("rapid property-based testing over constructor arguments with a three-fold oracle: library Verify on the constructed value, library Verify after serialise+parse, and the independent stdlib verifier over the raw bytes",
          "Every signing constructor (NewRouterInfo, NewLeaseSet, NewLeaseSet2, NewEncryptedLeaseSet(+FromDestination, four key representations), CreateOfflineSignature) on ~12k generated argument tuples per quick run incl. empty values, one-character keys, 0..8 addresses, 0..16 leases, all flag combinations, offline blocks with transient types 0,1,7,11. A symmetric sign/verify mistake is caught by the independent verifier.",
          "Known finding F-ECDSA-VERIFY (P-256-signed output never verifies; defect in the go-i2p/crypto dependency) is excluded by signature and counted. P-384 private keys do not implement types.SigningPrivateKey and cannot be passed to the constructors at all.", "DESIGN.md 5/C06"),
+ "C02": ("rapid differential testing against an independent implementation of the common.md layout: model encode -> library parse -> every accessor compared with the model value; library constructors -> bytes compared with the model encoding and strictly decoded by the model",
+         "Both directions for identity (all supported key pairs, NULL/KEY certificates, excess payload), Lease/Lease2, LeaseSet, LeaseSet2, MetaLeaseSet (library-documented layout and common.md layout), EncryptedLeaseSet, OfflineSignature, RouterAddress, RouterInfo on ~24k generated values per quick run. A change applied symmetrically to reader and writer is caught because the model shares no code with the library.",
+         "internal/model (written from common.md) is the reference. Known finding F-META-SPEC (MetaLeaseSet layout differs from common.md) is excluded by signature and counted; domain restrictions (EncryptedLeaseSet expires >= 1, inner >= 61 bytes; peer_size 0) follow the library's documented minima.", "DESIGN.md 5/C02"),
 }
 checks = []
 for pid in ids:
